@@ -233,7 +233,7 @@ Next ==
   /\ LET e == Traces[tid].ev[l]
          o == e.obs
          sf == StructFails(o)
-         stutter == (IF e.res # "ok" /\ o.dig # PrevDig(tid, l) THEN {"stutter"} ELSE {})
+         stutter == (IF e.res # "ok" /\ e.op.k # "load" /\ o.dig # PrevDig(tid, l) THEN {"stutter"} ELSE {})
                     \* C10: a read-only call leaves the whole observation unchanged and
                     \* answers the same when repeated (and as it did earlier in this state)
                     \cup (IF e.op.k = "query" /\ o.dig # PrevDig(tid, l) THEN {"query-changed"} ELSE {})
